@@ -108,8 +108,55 @@ func runUpstreamFamily(s *Sim, prop string) {
 	}
 	s.BurstMax = burst
 
+	// C20: the connection is lost once in the middle and comes back (with nothing buffered and nothing
+	// in flight at that moment, so that no QoS may lose anything): the flush policies keep their
+	// promises on the resumed stream
+	midCut := prop == "C20" && t.Bool("mid-cut", 1, 5)
 	// main loop
 	for step := 0; step < maxSteps; step++ {
+		if midCut && step == maxSteps/2 {
+			midCut = false
+			s.BurstMax, s.burstLeft = 0, 0
+			s.Do("sync", func() {})
+			if !y.PumpUntil(func() bool { return !s.AnyBusy() }, 100*time.Millisecond, 30*time.Second) {
+				s.Stat("c20.mid-cut-skipped")
+			} else {
+				ok := true
+				for _, h := range y.Ups {
+					op := s.Start(0, y.flushOp(h))
+					s.Wait()
+					y.Pump()
+					ok = ok && op.harvested && op.Err == nil
+				}
+				if ok {
+					for _, l := range y.aliveLinks() {
+						l.Kill(errClosed, errClosed)
+					}
+					s.Stat("fault.cut")
+					s.Logf("fault: cut (nothing buffered, nothing in flight)")
+					// keepalive is out of reach in this family: a request makes the client notice
+					probe := s.Start(0, y.sendMetaOp("after-mid-cut"))
+					s.Wait()
+					_ = probe
+					resumed := func() bool {
+						s.mu.Lock()
+						defer s.mu.Unlock()
+						for _, h := range y.Ups {
+							if len(h.ResumedEv) == 0 {
+								return false
+							}
+						}
+						return true
+					}
+					if !y.PumpUntil(resumed, 100*time.Millisecond, 60*time.Second) {
+						s.Violate("C20.stream-not-resumed", "", "the streams did not resume within 60 s after a clean cut on a broker that answers everything")
+						return
+					}
+					s.Stat("env.resumed-mid-run")
+				}
+			}
+			s.BurstMax = burst
+		}
 		var acts []Action
 		for ti := 0; ti < nWriters; ti++ {
 			ti := ti
